@@ -440,6 +440,7 @@ fn mode_long(k: u64, env: &WorkerEnv) -> (Verdict, Vec<Event>, BTreeMap<String, 
         file_mode: false,
         handler: None,
         handler_initially: true,
+        crlf: false,
         init: vec![],
         lines: vec![line("k0", None, c03::Ans::Cont(None)), line("k1", Some("v0"), c03::Ans::Cont(Some("x".to_string()))), line("k2", None, c03::Ans::Cont(Some("y".to_string()))), line("k3", None, c03::Ans::GotoLine(None, 0))],
         budget: u64::MAX / 2,
